@@ -10,6 +10,7 @@ fail at any call and may kill any process between any two effects.  `Reachable n
 -/
 import CueVerif.Proofs.ModCacheObs
 import CueVerif.Proofs.ModCacheRecover
+import CueVerif.Proofs.ModCachePaths
 namespace CueVerif.C16
 open CueVerif CueVerif.ModCache
 
@@ -84,6 +85,46 @@ theorem C16_recover (n : Nat) (s : VSt) (hr : Reachable n s) (hq : ∀ u, s.pc u
       (cleanFetch n s t).1.mark = false ∧ Ev.avail ∈ (cleanFetch n s t).2 ∧
       Steps n s (cleanFetch n s t).1 :=
   recover (reachable_inv hr) hq t ha hz
+
+/-! ### independence of the versions on disk
+
+`C16_safe` is about the product of per-version components.  On disk every effect names its
+target exactly (different versions, different names) except the cleanup `Fetch` does before
+extracting, which matches directory entries of the parent by PREFIX (Bridge: `fx_Fetch_removes`,
+`cleanup_tmp_suffix`). -/
+
+/-- The cleanup for the directory called `base` removes `base` itself or `.tmp-` siblings of it,
+nothing else. -/
+theorem C16_cleanup_confined (base name : Name) (h : cleanupRemoves base name = true) :
+    name = base ∨ ∃ rest, name = base ++ tmpSuffix ++ rest :=
+  cleanup_confined base name h
+
+/-- FULL statement: fetching one version never removes the extraction directory of another
+valid version of the same module.  It is FALSE of model and code alike … -/
+def C16_cleanup_indep_stmt : Prop :=
+  ∀ e v w : Name, Semver.isValid v = true → Semver.isValid w = true → v ≠ w →
+    cleanupRemoves (dirBase e v) (dirBase e w) = false
+
+/-- … witness: "v0.0.1-a.tmp-x" is a valid version whose directory name is that of "v0.0.1-a"
+followed by ".tmp-x" (replayed on the implementation by the harness, phase P8; reported as
+finding `tmp-prefix-version`). -/
+theorem C16_cleanup_indep_false : ¬ C16_cleanup_indep_stmt := by
+  intro h
+  obtain ⟨hv, hw, hne, hr⟩ := tmp_witness
+  have := h [113] _ _ hv hw hne
+  rw [this] at hr
+  exact Bool.false_ne_true hr
+
+/-- What holds: another version's directory is spared unless its name is this version's name
+followed by ".tmp-…" — exactly the excluded region. -/
+theorem C16_cleanup_indep_partial (e v w : Name) (hne : v ≠ w)
+    (hno : hasPrefix (dirBase e v ++ tmpSuffix) (dirBase e w) = false) :
+    cleanupRemoves (dirBase e v) (dirBase e w) = false :=
+  cleanup_spares _ _ (dirBase_ne e v w hne) hno
+
+-- non-vacuity: the hypothesis holds for the sibling versions v0.0.1 / v0.0.10 (TEST)
+example : hasPrefix (dirBase [102] [118,48,46,48,46,49] ++ tmpSuffix) (dirBase [102] [118,48,46,48,46,49,48]) = false := by
+  decide
 
 /-! ### non-vacuity (TESTS on concrete runs, not the property) -/
 
